@@ -55,7 +55,10 @@ def binding_path(scope, name):
         for u in s.uses:
             exp = u.module.inner.exported()
             if u.only is None:
-                if n in exp:
+                ren = {loc.lower(): rn for loc, rn, _ in (u.renames or [])}
+                if n in ren:
+                    return "use-rename-list" + ("-reexport" if exp[ren[n]].scope is not u.module.inner else "") + ("" if level == 0 else "@host")
+                if n in exp and n not in ren.values():
                     e = exp[n]
                     via = "use"
                     if e.scope is not u.module.inner:
@@ -71,6 +74,20 @@ def binding_path(scope, name):
         s = s.parent
         level += 1
     return "unbound"
+
+
+def hidden_by_rename_list(scope, name, ent):
+    """True if `ent` is an entity that a rename list without ONLY ('use m, loc => NAME') on the scope chain of `scope` makes
+    inaccessible under NAME (it is accessible as loc only), i.e. a lookup of NAME that ignores the hiding finds `ent`."""
+    n = name.lower()
+    s = scope
+    while s is not None:
+        for u in s.uses:
+            for loc, rn, rem in (u.renames or []):
+                if rn == n and rem is ent:
+                    return True
+        s = s.parent
+    return False
 
 
 def homonyms(prog, ent, spelling):
